@@ -75,7 +75,9 @@ def gen(seed: int, tier: str) -> dict[str, Any]:
     ops.sort(key=lambda o: o["t"])
     cfg = {"mode": mode, "auto_reconnect": rng.random() < 0.85, "local_port": rng.choice([0, 52000]),
            "batch": 1 if (rng.random() < 0.75 or mode == "dm_conn") else 3,
-           "route_back": rng.random() < 0.2, "first_channel": rng.choice([1, 9, 255])}
+           "route_back": rng.random() < 0.2, "first_channel": rng.choice([1, 9, 255]),
+           # long runs: at the wrap of the counter the frame numbered 0 overtakes the one numbered 255 (reordered on the way)
+           "swap_at_wrap": long_run and rng.random() < 0.6}
     return {"seed": seed, "tier": "S" if cfg["batch"] == 1 else "P", "config": cfg, "ops": ops,
             "fault_policy": policy}
 
@@ -166,7 +168,12 @@ def run(plan: dict[str, Any]) -> dict[str, Any]:
             k = op["k"]
             foreign = bool(op.get("foreign_channel"))
             tx = state["tx"]
-            if k == "next":
+            if k == "next" and tx == 255 and cfg.get("swap_at_wrap") and not foreign:
+                send(cid, 0, foreign)
+                send(cid, 255, foreign)
+                state["tx"] = 0         # the frame numbered 0 was not accepted: it comes again
+                R.extra_faults["reordered_at_counter_wrap"] += 1
+            elif k == "next":
                 send(cid, tx, foreign)
                 if not foreign:
                     state["tx"] = (tx + 1) & 0xFF
